@@ -1022,29 +1022,37 @@ func convertVerticallIDToBit(vZoom int64, vIndex int64, outputZoom int64, maxHei
 //	 出力インデックス不正       ：出力altitudekeyが出力ズームレベル(outputZoom)で存在しないインデックス値になった場合。
 func ConvertZToMinMaxAltitudekey(inputIndex int64, inputZoom int64, outputZoom int64, zBaseExponent int64, zBaseOffset int64) (minAltitudeKey int64, maxAltitudeKey int64, err error) {
 
-	// determine the upper and lower index bounds to search for matches in height solution space
-	lowerBound, err := convertZToMinAltitudekey(inputIndex, inputZoom, outputZoom, zBaseExponent, zBaseOffset)
-	if err != nil {
-		return 0, 0, err
-	}
-	upperBound, err := convertZToMinAltitudekey(inputIndex+1, inputZoom, outputZoom, zBaseExponent, zBaseOffset)
-	if err != nil {
+	// 1. check that the input index exists in the input system
+	err, ok := validateIndexExists(inputIndex, inputZoom, true)
+	if !ok {
 		return 0, 0, err
 	}
 
-	// Determine the vertical index/indices to return.
-	// a) always return the lowerBound index. Regardless of the difference between the inputZoom and outputZoom,
-	// mathematically the altitude associated with the lower bounds will always satisfy the solution set.
-	// b) cycle through indices from lowerBounds+1 to upperBounds with i to find any possible additional indexes
-	// that satisfy the solution set.
-	// but only output (minimum key, maximum key) as (lowerBound, upperBound - 1)
-	minAltitudeKey = lowerBound
-	maxAltitudeKey = upperBound - 1
-	if minAltitudeKey > maxAltitudeKey {
-		return minAltitudeKey, minAltitudeKey, nil
-	} else {
-		return minAltitudeKey, maxAltitudeKey, nil
+	// 2. altitude range [lower, upper) of the input voxel, in units of 2^-fraction metres so that
+	// voxels finer than 1m (inputZoom > ZOriginValue) keep their exact bounds
+	fraction := inputZoom - consts.ZOriginValue
+	if fraction < 0 {
+		fraction = 0
 	}
+	toUnit := consts.ZOriginValue - inputZoom + fraction
+	lower := common.CalculateArithmeticShift(inputIndex, toUnit)
+	upper := common.CalculateArithmeticShift(inputIndex+1, toUnit)
+	offset := common.CalculateArithmeticShift(zBaseOffset, fraction)
+
+	// 3. first and last altitudekey touching that range: floor of the lower bound, ceiling of the upper bound - 1
+	toKey := outputZoom - zBaseExponent - fraction
+	minAltitudeKey = common.CalculateArithmeticShift(lower+offset, toKey)
+	maxAltitudeKey = -common.CalculateArithmeticShift(-(upper+offset), toKey) - 1
+
+	// 4. check that both keys exist in the output system
+	if _, ok = validateIndexExists(minAltitudeKey, outputZoom, false); ok {
+		_, ok = validateIndexExists(maxAltitudeKey, outputZoom, false)
+	}
+	if !ok {
+		return 0, 0, errors.NewSpatialIdError(errors.InputValueErrorCode, "output index does not exist with given outputZoom, zBaseExponent, and zBaseOffset")
+	}
+
+	return minAltitudeKey, maxAltitudeKey, nil
 }
 
 func convertZToMinAltitudekey(inputIndex int64, inputZoom int64, outputZoom int64, zBaseExponent int64, zBaseOffset int64) (int64, error) {
